@@ -35,7 +35,7 @@ class C12(CheckBase):
     stubbed_components = ['results of faulted write() calls on created files (decided by simkernel)']
 
     def budget(self, tier):
-        return 700 if tier == 'quick' else 20000
+        return 1500 if tier == 'quick' else 30000
 
     def time_cap(self, tier):
         return 600 if tier == 'quick' else 5400
